@@ -5,6 +5,12 @@ HERE = os.path.dirname(os.path.dirname(os.path.abspath(__file__)))
 sys.path.insert(0, os.path.join(HERE, "tools"))
 import manifest_data as md
 
+COMMON_NOTE = ("; besides the letters named above the alphabet carries the letter families added during the seeded campaign "
+               "(DESIGN.md 7.2): argument forms (dtypes, containers, layouts), boundary sizes and values, refused calls "
+               "(exception safety, with retry), option cross products, every public route to the functionality, permuted "
+               "orders, and other magnitudes (x1e-6, x1e-9, x1e6, large offsets, near-identity / near-equal operands, one "
+               "large-size letter); exact roots, alphabet sizes, depth completed and the letters left out are in the "
+               "evidence file (coverage, assumptions)")
 checks, na = [], []
 for cid in ["C%02d" % i for i in range(1, 21)]:
     have = os.path.exists(os.path.join(HERE, "mc", "checks", cid.lower() + ".py"))
@@ -18,7 +24,7 @@ for cid in ["C%02d" % i for i in range(1, 21)]:
             "replay_cmd_template": "./check %s --replay {path}" % cid,
             "engine": "mc-explorer",
             "level_claimed": {"category": "model_checking", "text": info["text"], "design_ref": info["design_ref"]},
-            "level_note": info["note"],
+            "level_note": info["note"] + COMMON_NOTE,
             "technique": info["technique"],
         })
     else:
